@@ -515,7 +515,63 @@ func init() {
 	sprintf := func(ex *Exec, caller *frame, fn *ssa.Function, args []Value) (Value, *goPanic) {
 		return ex.mkStr("<fmt>"), nil
 	}
-	t["fmt.Sprintf"] = sprintf
+	t["fmt.Sprintf"] = func(ex *Exec, caller *frame, fn *ssa.Function, args []Value) (Value, *goPanic) {
+		format, ok := concreteStr(args[0].(Str))
+		if !ok {
+			return ex.mkStr("<fmt>"), nil
+		}
+		va := ex.sliceElems(args[1].(Slice))
+		var out []*Term
+		lit := func(s string) {
+			for i := 0; i < len(s); i++ {
+				out = append(out, ex.C.Const(8, uint64(s[i])))
+			}
+		}
+		ai := 0
+		for i := 0; i < len(format); i++ {
+			c := format[i]
+			if c != '%' {
+				out = append(out, ex.C.Const(8, uint64(c)))
+				continue
+			}
+			i++
+			if i >= len(format) {
+				return ex.mkStr("<fmt>"), nil
+			}
+			verb := format[i]
+			if verb == '%' {
+				lit("%")
+				continue
+			}
+			if ai >= len(va) {
+				return ex.mkStr("<fmt>"), nil
+			}
+			iv, _ := va[ai].(Iface)
+			ai++
+			switch verb {
+			case 'd', 's', 'v':
+				switch x := iv.V.(type) {
+				case Str:
+					out = append(out, x.B...)
+				case *Term:
+					if !x.IsConst() || x.W == 0 {
+						ex.noteAssumption("fmt.Sprintf of a symbolic number rendered as an opaque string")
+						return ex.mkStr("<fmt>"), nil
+					}
+					if isUnsigned(iv.T) {
+						lit(fmt.Sprintf("%d", x.Val))
+					} else {
+						lit(fmt.Sprintf("%d", x.SVal()))
+					}
+				default:
+					return ex.mkStr("<fmt>"), nil
+				}
+			default:
+				return ex.mkStr("<fmt>"), nil
+			}
+		}
+		return Str{out}, nil
+	}
 	t["fmt.Sprint"] = sprintf
 	t["fmt.Sprintln"] = sprintf
 	t["fmt.Fprintf"] = noop
